@@ -48,9 +48,6 @@ def OriginAllowed (cfg : AdminCfg) (a : Addr) (u : Url) : Prop :=
 /-- neither an Origin nor a Referer header -/
 def OriginMissing (r : Req) : Prop := r.origin = [] ∧ r.referer = []
 
-def lowerByte (b : UInt8) : UInt8 := if 65 ≤ b ∧ b ≤ 90 then b + 32 else b
-def asciiLower (s : Bytes) : Bytes := s.map lowerByte
-
 /-- RFC 6455 §4.2.1: an Upgrade header field containing the value "websocket", compared ASCII
     case-insensitively; every value of the (possibly repeated) header counts -/
 def IsWebsocketUpgrade (r : Req) : Prop :=
